@@ -1074,6 +1074,11 @@ func runC16(c *Ctx) {
 			c16OutageAfterFailedRefresh(c, i)
 		}
 	}
+	for i := 0; i < c.Pick(6, 120); i++ {
+		if j := next(); c.Mine(j) {
+			c16OutageHalfReadyNodes(c, i)
+		}
+	}
 	for i := 0; i < c.Pick(1, 30); i++ {
 		if j := next(); c.Mine(j) {
 			c16Readiness(c, i)
@@ -1284,6 +1289,76 @@ func c16OutageAfterFailedRefresh(c *Ctx, idx int) {
 	if d1 <= 0 || d2 < d1 {
 		r.Violate(mon.Violation{Signature: "C16/outage-not-reported-while-down/after-failed-refresh", Detail: fmt.Sprintf("a refresh query on the control connection was answered with an error, the proxy closed that connection, no node accepts new connections and at least three reconnect delays have been asked for: OutageDuration() = %s then %s", d1, d2), Scenario: scenario})
 		return
+	}
+	r.Obs("outage_positive_samples", 1)
+}
+
+// c16OutageHalfReadyNodes: the control connection is lost and every node the proxy turns to accepts the connection and the
+// handshake (it even registers for events) but answers the system-table queries behind them with an error - a node that
+// is restarting. No control connection exists during all of that: the reported outage has to be non-zero and to grow by
+// at least the time that passes between two readings, over several reconnect attempts.
+func c16OutageHalfReadyNodes(c *Ctx, idx int) {
+	r := c.R
+	scenario := map[string]interface{}{"kind": "outage-half-ready-nodes", "idx": idx}
+	c.Step("c16 outage-half-ready-nodes idx=%d", idx)
+	hosts := 1 + idx%3
+	refusedTable := []string{"peers", "local"}[(idx/3)%2]
+	bed, err := px.NewBed(px.BedConfig{Hosts: hosts, NumConns: 1, ReconnectBase: 2 * time.Millisecond, ReconnectMax: 10 * time.Millisecond, RefreshWindow: 20 * time.Millisecond, ConnectTimeout: 2 * time.Second})
+	if err != nil {
+		r.Inconc("c16 outage-half-ready-nodes: cannot start bed: " + err.Error())
+		return
+	}
+	defer bed.Close()
+	if !waitFor(func() bool { return len(bed.Cluster.EstablishedControlConns()) == 1 }, 10*time.Second) {
+		r.Inconc("c16 outage-half-ready-nodes: no established control connection")
+		return
+	}
+	ctl := bed.Cluster.EstablishedControlConns()[0]
+	var refused int32
+	bed.Cluster.SystemOverride = func(x *fakecass.Conn, table string) message.Message {
+		if x.ID != ctl.ID && table == refusedTable {
+			atomic.AddInt32(&refused, 1)
+			return &message.ServerError{ErrorMessage: "node is starting up"}
+		}
+		return nil
+	}
+	defer func() { bed.Cluster.SystemOverride = nil }()
+	ctl.Kill(false)
+	r.Eval(1)
+	r.Obs("outage_half_ready_nodes_cases", 1)
+	if !waitFor(func() bool { return atomic.LoadInt32(&refused) >= 3 }, 10*time.Second) {
+		r.Obs("outage_half_ready_nodes_not_reached", 1) // fewer than three half-finished reconnects: nothing to judge
+		return
+	}
+	r.NonTrivial(fmt.Sprintf("outage-half-ready-nodes/h%d/%s", hosts, refusedTable))
+	type reading struct {
+		before, after time.Time
+		d             time.Duration
+		refused       int32
+	}
+	var rd []reading
+	for k := 0; k < 12; k++ {
+		n := atomic.LoadInt32(&refused)
+		x := reading{before: time.Now(), refused: n}
+		x.d = bed.Proxy.OutageDuration()
+		x.after = time.Now()
+		rd = append(rd, x)
+		waitFor(func() bool { return atomic.LoadInt32(&refused) > n }, time.Second) // the next reading lies behind another attempt
+	}
+	if len(bed.Cluster.EstablishedControlConns()) > 0 {
+		return
+	}
+	r.Obs("outage_half_ready_readings", len(rd))
+	for k, x := range rd {
+		if x.d <= 0 {
+			r.Violate(mon.Violation{Signature: "C16/outage-not-reported-while-down/half-ready-nodes", Detail: fmt.Sprintf("the control connection was lost and %d reconnects got through the handshake only to have system.%s refused: no control connection exists, OutageDuration() = %s", x.refused, refusedTable, x.d), Scenario: scenario})
+			return
+		}
+		// the clock inside OutageDuration() was read between `before` and `after` (monotonic readings of one process)
+		if k > 0 && x.d-rd[k-1].d < x.before.Sub(rd[k-1].after) {
+			r.Violate(mon.Violation{Signature: "C16/outage-restarts-while-down/half-ready-nodes", Detail: fmt.Sprintf("no control connection exists between two readings taken at least %s apart (%d and %d reconnects had system.%s refused by then), yet the reported outage went from %s to %s: the outage clock was restarted although the outage never ended", x.before.Sub(rd[k-1].after), rd[k-1].refused, x.refused, refusedTable, rd[k-1].d, x.d), Scenario: scenario})
+			return
+		}
 	}
 	r.Obs("outage_positive_samples", 1)
 }
